@@ -713,7 +713,11 @@ func (p *ProjectRunner) getCurrentReplicaCount(name string) int {
 func (p *ProjectRunner) scaleUpProcess(proc types.ProcessConfig, toAdd, scale, origScale int) {
 	for i := 0; i < toAdd; i++ {
 		var procFromConf types.ProcessConfig
-		err := json.Unmarshal([]byte(proc.OriginalConfig), &procFromConf)
+		// numbers inside Vars must keep their textual form: decoded as float64 an
+		// integer variable such as 12345678 would be rendered as 1.2345678e+07
+		decoder := json.NewDecoder(strings.NewReader(proc.OriginalConfig))
+		decoder.UseNumber()
+		err := decoder.Decode(&procFromConf)
 		if err != nil {
 			log.Err(err).Msgf("failed to unmarshal config for %s", proc.Name)
 			return
